@@ -128,6 +128,103 @@ Example C19_chain_drop_example :
   map m_index (snd (process ps ms)) = [0; 2] /\ map m_text (snd (process ps ms)) = [Some [49; 33]; Some [49; 34]].
 Proof. vm_compute. split; reflexivity. Qed.
 
+(* ------------------------------------------------------------------ Part 2: the anonymiser *)
+
+(* AnonymizePlugin::process_msg (repaired code) returns normally for every message in every state: none of the
+   modelled slices / unwraps can fail; a stream of n messages yields n messages *)
+Theorem C19_anon_no_panic st ms :
+  exists st' outs, anon_run true st ms = Ok (st', outs) /\ length outs = length ms.
+Proof. exact (anon_run_ok ms st). Qed.
+
+(* the defect that was repaired in /repo (fix: anonymize: do not panic on a control response whose first
+   argument is shorter than 4 bytes): verbose control response, noar 1, payload 11 00 00 00 01 *)
+Theorem C19_anon_unwrap_refuted_before_fix :
+  exists m, anon_step false anon_init m = Panic site_unwrap /\ is_ok (anon_step true anon_init m) = true.
+Proof. eexists. exact anon_step_before_fix_panics. Qed.
+
+(* equal ids -> equal pseudonyms: the whole stream is renamed by ONE table (the final one): ECU by the ECU
+   table, APID by the table of its (new) ECU, CTID by the table of its (new) ECU and (old) APID;
+   message type and noar are kept *)
+Theorem C19_anon_is_table_lookup ms st' outs :
+  anon_run true anon_init ms = Ok (st', outs) -> Forall2 (renamed_by st') ms outs.
+Proof. intros E. exact (proj1 (proj2 (anon_run_renamed true ms anon_init st' outs E))). Qed.
+
+(* distinct ids -> distinct pseudonyms while a table holds at most [capacity] = 999 ids *)
+Theorem C19_anon_injective ms st' outs :
+  anon_run true anon_init ms = Ok (st', outs) ->
+  (blen (a_ecus st') <= capacity -> tbl_injective (a_ecus st')) /\
+  (forall E, blen (apid_tbl st' E) <= capacity -> tbl_injective (apid_tbl st' E)) /\
+  (forall E A, blen (ctid_tbl st' E A) <= capacity -> tbl_injective (ctid_tbl st' E A)).
+Proof. exact (anon_tables_injective true ms st' outs). Qed.
+
+(* the ECU table has exactly one entry per distinct ECU id of the stream (so its size is the ECU population) *)
+Theorem C19_anon_ecu_population ms st' outs :
+  anon_run true anon_init ms = Ok (st', outs) ->
+  NoDup (map fst (a_ecus st')) /\ forall e, In e (map fst (a_ecus st')) <-> In e (map m_ecu ms).
+Proof.
+  intros E. destruct (anon_run_renamed true ms anon_init st' outs E) as (_ & _ & _ & K & D).
+  split; [apply D; constructor|]. intros e. rewrite K. cbn. intuition.
+Qed.
+
+(* both directions for two messages of one stream *)
+Theorem C19_anon_pairwise ms st' outs i j mi mj oi oj :
+  anon_run true anon_init ms = Ok (st', outs) ->
+  nth_error ms i = Some mi -> nth_error ms j = Some mj -> nth_error outs i = Some oi -> nth_error outs j = Some oj ->
+  (m_ecu mi = m_ecu mj -> m_ecu oi = m_ecu oj) /\
+  (blen (a_ecus st') <= capacity -> m_ecu oi = m_ecu oj -> m_ecu mi = m_ecu mj) /\
+  forall ei ej ei' ej', m_ext mi = Some ei -> m_ext mj = Some ej -> m_ext oi = Some ei' -> m_ext oj = Some ej' ->
+    m_ecu mi = m_ecu mj ->
+    (e_apid ei = e_apid ej -> e_apid ei' = e_apid ej') /\
+    (blen (apid_tbl st' (m_ecu oi)) <= capacity -> e_apid ei' = e_apid ej' -> e_apid ei = e_apid ej) /\
+    (e_apid ei = e_apid ej ->
+       (e_ctid ei = e_ctid ej -> e_ctid ei' = e_ctid ej') /\
+       (blen (ctid_tbl st' (m_ecu oi) (e_apid ei)) <= capacity -> e_ctid ei' = e_ctid ej' -> e_ctid ei = e_ctid ej)).
+Proof. exact (anon_pairwise true ms st' outs i j mi mj oi oj). Qed.
+
+(* the capacity is exactly 999: with 1000 distinct ECU ids the 1000th gets "E100" again (format!("E{:03}", 1000)
+   = "E1000", DltChar4::from_str keeps four bytes) — outside the property's quantifier, shown for tightness *)
+Theorem C19_anon_capacity_tight :
+  match anon_run true anon_init (pop_stream 1000 1 1 1000) with
+  | Ok (st', outs) =>
+      blen (a_ecus st') = 1000 /\
+      option_map m_ecu (nth_error (pop_stream 1000 1 1 1000) 99) <> option_map m_ecu (nth_error (pop_stream 1000 1 1 1000) 999) /\
+      option_map m_ecu (nth_error outs 99) = option_map m_ecu (nth_error outs 999)
+  | _ => False
+  end.
+Proof. vm_compute. split; [reflexivity|]. split; [discriminate|reflexivity]. Qed.
+
+(* all times (and index, lifecycle, standard header, text, message type, noar, presence of the extended header)
+   are untouched; hence also the control-request / control-response / verbose classification and the
+   timestamp-presence flag the lifecycle detection looks at *)
+Theorem C19_anon_keeps_times st ms st' outs :
+  anon_run true st ms = Ok (st', outs) ->
+  Forall2 (fun m m' => m_index m' = m_index m /\ m_rtime m' = m_rtime m /\ m_ts m' = m_ts m /\
+                       m_htyp m' = m_htyp m /\ m_mcnt m' = m_mcnt m /\ m_len m' = m_len m /\
+                       m_lc m' = m_lc m /\ m_text m' = m_text m /\ ext_kind_kept (m_ext m) (m_ext m')) ms outs.
+Proof. exact (anon_run_keeps true ms st st' outs). Qed.
+
+Theorem C19_anon_keeps_classification st m st' m' :
+  anon_step true st m = Ok (st', m') ->
+  is_ctrl_request m' = is_ctrl_request m /\ is_ctrl_response m' = is_ctrl_response m /\
+  is_verbose m' = is_verbose m /\ has_timestamp m' = has_timestamp m.
+Proof.
+  intros E. destruct (anon_step_keeps true st m st' m' E) as (_ & _ & _ & Hh & _ & _ & _ & _ & Hx).
+  destruct (ext_kind_kept_class m m' Hx) as (A & B & C). unfold has_timestamp. rewrite Hh. auto.
+Qed.
+
+(* non-vacuity: two ECUs, a repeated APID, a software-version response, a non-verbose message *)
+Example C19_anon_nonvacuous :
+  let ms := [M 0 5000 11 1 49 0 0 (Some (65, 1, 21, 31)) [0; 2; 0; 0; 2; 0; 104; 0] None 0;
+             M 1 6000 12 2 49 0 0 (Some (65, 1, 21, 32)) [] None 0;
+             M 2 7000 11 3 49 0 0 (Some (38, 1, 21, 31)) [19; 0; 0; 0; 0; 1; 0; 0; 0; 65] None 0;
+             M 3 8000 11 4 48 0 0 None [1; 2; 3; 4; 5] None 0] in
+  exists st' outs, anon_run true anon_init ms = Ok (st', outs) /\
+    map m_ecu outs = [pseudo letter_E 1; pseudo letter_E 2; pseudo letter_E 1; pseudo letter_E 1] /\
+    map (fun m => option_map e_ctid (m_ext m)) outs = [Some (pseudo letter_C 1); Some (pseudo letter_C 1); Some (pseudo letter_C 1); None] /\
+    map m_rtime outs = [5000; 6000; 7000; 8000] /\
+    nth_error (map m_payload outs) 3 = Some [1; 2; 3; 4; 8; 0; 0; 0; 0; 0; 0; 0].
+Proof. cbv zeta. eexists. eexists. split; [vm_compute; reflexivity|]. vm_compute. repeat split. Qed.
+
 Print Assumptions C19_frame_meaning.
 Print Assumptions C19_chain_conservative.
 Print Assumptions C19_chain_conservative_fields.
@@ -138,3 +235,13 @@ Print Assumptions C19_chain_outflow_error_prefix.
 Print Assumptions C19_frame_acceptor_sound.
 Print Assumptions C19_chain_nonvacuous.
 Print Assumptions C19_chain_drop_example.
+Print Assumptions C19_anon_no_panic.
+Print Assumptions C19_anon_unwrap_refuted_before_fix.
+Print Assumptions C19_anon_is_table_lookup.
+Print Assumptions C19_anon_injective.
+Print Assumptions C19_anon_ecu_population.
+Print Assumptions C19_anon_pairwise.
+Print Assumptions C19_anon_capacity_tight.
+Print Assumptions C19_anon_keeps_times.
+Print Assumptions C19_anon_keeps_classification.
+Print Assumptions C19_anon_nonvacuous.
